@@ -1,4 +1,5 @@
 mod chain;
+mod chainrec;
 mod keys;
 mod layout;
 mod util;
@@ -11,6 +12,8 @@ fn main() {
     }
     match args[1].as_str() {
         "chain-forged" => chain::cmd_forged(&args[2], &args[3]),
+        "chain-record" => chainrec::cmd_record(args[2].parse().unwrap(), &args[3]),
+        "chain-unique" => chain::cmd_unique(args[2].parse().unwrap(), &args[3]),
         "chain-honest" => chain::cmd_honest(&args[2], &args[3]),
         o => {
             eprintln!("unknown command {o}");
